@@ -11,6 +11,9 @@ orcc is built from the tree and run on a corpus (.orc text in harness/c07/corpus
   (3) the same call on the -DDISABLE_ORC body
   (1b) the bytecode array embedded in each generated wrapper is fed to the real orc_program_new_from_static_bytecode and the
       rebuilt program is compared with the parsed one                                           [concrete gate; symbolic: C13]
+  (1c) functions with a user-supplied backup (.backup): compile gate on harness/c07/backup.orc; for those that compile
+      (harness/c07/backup_ok.orc) the user's function receives exactly the caller's arguments, through the executor and in
+      the DISABLE_ORC build (irsym, all argument values)
   (4) orc_memcpy / orc_memset of the checked-in orcfunctions.c, wrapper + backup, against memcpy/memset semantics
 JIT and emulate modes differ from (2) only in the function the wrapper jumps to with the executor it filled in; those
 functions are tied to the same oracle by C01 (JIT) and C02 (orc_executor_emulate)."""
@@ -268,6 +271,88 @@ def probe_contract(rep, ex, p, off, C, arrays, params, accs, acc_in, code, n_eff
     return 'ok', nobl[0]
 
 
+def check_user_backup(rep, b, orcc, off):
+    """functions with a user-supplied backup (.backup name): prototype -> executor -> the user's function, and the DISABLE_ORC
+    direct call: the user's function receives exactly the caller's arguments (for all argument values)"""
+    from engines.irsym import Module, Executor, MemFault, Unsupported
+    src = os.path.join(VERIF, 'harness', 'c07', 'backup_ok.orc')
+    c_out, h_out = os.path.join(b.dir, 'gen_bko.c'), os.path.join(b.dir, 'gen_bko.h')
+    r1 = subprocess.run([orcc, '--implementation', '-o', c_out, src], capture_output=True, text=True, cwd=b.dir)
+    r2 = subprocess.run([orcc, '--header', '-o', h_out, src], capture_output=True, text=True, cwd=b.dir)
+    if r1.returncode or r2.returncode:
+        rep.violated('c07.orcc|backup_ok corpus fails', 'orcc fails on harness/c07/backup_ok.orc: %s' % (r1.stderr + r2.stderr)[:300], name='c07.orcc.backup_ok')
+        return
+    fnames = re.findall(r'(?m)^\.function (\w+)', open(src).read())
+    protos = {k: v for k, v in prototypes(open(h_out).read()).items() if k in fnames}
+    helper = ['#include <orc/orc.h>', '#include "gen_bko.h"']
+    for f, args in protos.items():
+        helper.append('int calls_%s;' % f)
+        for nm, ty in args:
+            cty = 'const void *' if '*' in ty else ty
+            helper.append('%s seen_%s_%s;' % (cty, f, nm))
+        helper.append('void my_%s (%s) { calls_%s++; %s }' % (f, ', '.join('%s %s' % (ty, nm) for nm, ty in args), f, ' '.join('seen_%s_%s = %s;' % (f, nm, nm) for nm, ty in args)))
+    hp = os.path.join(b.dir, 'bko_helper.c')
+    open(hp, 'w').write('\n'.join(helper) + '\n')
+    ll_exec = b.ir('c07_orcexecutor', os.path.join(REPO, 'orc', 'orcexecutor.c'), wrapv=True)
+    for dn, defs in (('orc', []), ('noorc', ['DISABLE_ORC'])):
+        try:
+            ll = b.ir('c07_bko_' + dn, c_out, wrapv=True, defs=defs, extra=['-I' + b.dir])
+            llh = b.ir('c07_bkoh_' + dn, hp, wrapv=True, defs=defs, extra=['-I' + b.dir])
+            m = Module.load([ll, llh, ll_exec])
+        except Exception as e:
+            rep.violated('c07.backup_ok|does not compile %s' % dn, 'orcc output for harness/c07/backup_ok.orc does not compile (%s): %s' % (dn, str(e)[-400:]), name='c07.userbackup.' + dn)
+            continue
+        for f, args in sorted(protos.items()):
+            job = 'c07.userbackup.%s.%s' % (dn, f)
+            try:
+                ex = Executor(m, max_steps=1000000)
+                argv, want = [], {}
+                for nm, ty in args:
+                    if '*' in ty:
+                        A = ex.alloc('arr_' + nm, 64, init='symbolic')
+                        argv.append(A); want[nm] = (A, 64)
+                    elif 'int64' in ty or 'double' in ty:
+                        t_ = z3.BitVec('arg_' + nm, 64); argv.append(t_); want[nm] = (t_, 64)
+                    elif nm == 'n':
+                        argv.append(5); want[nm] = (5, 32)
+                    elif nm == 'm':
+                        argv.append(3); want[nm] = (3, 32)
+                    else:
+                        t_ = z3.BitVec('arg_' + nm, 32); argv.append(t_); want[nm] = (t_, 32)
+                if not defs:
+                    C = ex.alloc('code', off['sizeof_code'], init='zero')
+                    ex.write(C, off['code_exec'], ex.function_address('_backup_' + f), 8)
+                    g = ex.gaddr
+                    if f + '.once.0' in g:
+                        ex.write(g[f + '.once.0'], 0, 1, 4); ex.write(g[f + '.once.1'], 0, C, 8)
+                    else:
+                        ex.write(g[f + '.once'], 0, 1, 4); ex.write(g[f + '.once'], 8, C, 8)
+                paths = ex.call(f, argv, on_fault='path')
+                if len(paths) != 1 or paths[0].status != 'ok':
+                    rep.violated('c07.userbackup|%s fault' % f, '%s: ended with %s' % (job, [p_.status for p_ in paths][:3]), name=job)
+                    continue
+                p_ = paths[0]
+                s = z3.Solver()
+                bad = None
+                checks = [('number of calls of the user backup', p_.read(ex.gaddr['calls_' + f], 0, 4), 1, 32)]
+                for nm, (w_, bits) in want.items():
+                    checks.append(('argument %s' % nm, p_.read(ex.gaddr['seen_%s_%s' % (f, nm)], 0, bits // 8), w_, bits))
+                for what, got, w_, bits in checks:
+                    got = got if z3.is_expr(got) else z3.BitVecVal(got, bits)
+                    w_ = w_ if z3.is_expr(w_) else z3.BitVecVal(w_, bits)
+                    s.push(); s.add(got != w_); r_ = s.check(); rep.queries += 1
+                    if r_ != z3.unsat:
+                        bad = '%s: the user\'s backup function receives %s, the caller passed %s%s' % (what, z3.simplify(got), z3.simplify(w_), (' e.g. ' + str(s.model())[:150]) if r_ == z3.sat else '')
+                    s.pop()
+                if bad:
+                    rep.violated('c07.userbackup|%s %s' % (f, bad.split(':')[0]), '%s: %s' % (job, bad[:400]), name=job)
+                else:
+                    rep.held(job, n_props=len(checks), engine='irsym')
+            except (MemFault, Unsupported, Exception) as e:
+                import traceback
+                rep.inconc(job, 'engine: %s' % traceback.format_exc()[-300:])
+
+
 def check_memfuncs(rep, b, off):
     """orc_memcpy / orc_memset (checked-in generated wrappers + backup) == memcpy / memset"""
     from engines.irsym import Module, Executor, MemFault, Unsupported
@@ -387,6 +472,37 @@ def main():
             else:
                 first = [l for l in err.splitlines() if 'error' in l][:2]
                 rep.violated('c07.compiles|%s %s' % (tag, dn), '%s: orcc %s output does not compile%s: %s' % (job, ' '.join(args) or '(default)', ' with -DDISABLE_ORC' if defs else '', ' / '.join(first)[:400]), name=job)
+    # ---- (1c) functions with a user-supplied backup (.backup): the call of the user's function orcc emits must compile ----------
+    bk_in = os.path.join(VERIF, 'harness', 'c07', 'backup.orc')
+    bk_c, bk_h = os.path.join(b.dir, 'gen_backup.c'), os.path.join(b.dir, 'gen_backup.h')
+    r1 = subprocess.run([orcc, '--implementation', '-o', bk_c, bk_in], capture_output=True, text=True, cwd=b.dir)
+    r2 = subprocess.run([orcc, '--header', '-o', bk_h, bk_in], capture_output=True, text=True, cwd=b.dir)
+    if r1.returncode or r2.returncode:
+        rep.violated('c07.orcc|backup corpus fails', 'orcc fails on harness/c07/backup.orc: %s' % (r1.stderr + r2.stderr)[:300], name='c07.orcc.backup')
+    else:
+        gen = open(bk_c).read()
+        fnames = re.findall(r'(?m)^\.function (\w+)', open(bk_in).read())
+        for dn, defs in (('orc', []), ('noorc', ['DISABLE_ORC'])):
+            ok, err = gcc_compiles(b, 'tu_backup_' + dn, '#include "gen_backup.h"\n#include "gen_backup.c"\n', defs)
+            # attribute each diagnostic to the generated function it lies in
+            lines = gen.split('\n')
+            starts = [(i + 1, mm_.group(1)) for i, l in enumerate(lines) for mm_ in [re.match(r'^/\* (\w+) \*/$', l)] if mm_]
+            bad = {}
+            for l in err.splitlines():
+                mm_ = re.match(r'.*gen_backup\.c:(\d+):\d+: error: (.*)$', l)
+                if mm_:
+                    ln = int(mm_.group(1))
+                    owner = [f for st, f in starts if st <= ln]
+                    bad.setdefault(owner[-1] if owner else '?', []).append(mm_.group(2))
+            for f in fnames:
+                job = 'c07.compiles.backup.%s.%s' % (f, dn)
+                if f in bad:
+                    msg = re.sub(r'[‘’`\']', "'", bad[f][0])
+                    rep.violated('c07.backup|%s: %s' % (f, msg), '%s: orcc output for a function with a user-supplied backup (.backup) does not compile%s: %s' % (job, ' with -DDISABLE_ORC' if defs else '', msg), name=job)
+                elif not ok and not bad:
+                    rep.violated('c07.backup|%s: does not compile' % f, '%s: %s' % (job, err[:300]), name=job)
+                else:
+                    rep.held(job, n_props=1, engine='gcc')
     # ---- (1b) the bytecode embedded in the generated wrapper rebuilds the program that was parsed -----------------------------
     if 'default' in outs:
         gen = open(outs['default'][0]).read()
@@ -458,6 +574,7 @@ def main():
                 key = 'c07.%s.%s|%s' % (mode, fname, verdict)
                 replay = rep.write_replay(job, dict(key=key, what=detail, function=fname, option_set=tag, mode=mode, prototype=protos[fname], kind='irsym'))
                 rep.violated(key, '%s: calling %s through its prototype (%s, %s) does not compute the emulation semantics: %s' % (job, fname, tag, mode, detail), replay=replay, name=job)
+    check_user_backup(rep, b, orcc, off)
     check_memfuncs(rep, b, off)
     rep.extra['programs'] = len(compiled)
     rep.functions.update(['orcc: output_code_header/output_prototype', 'orcc: output_code_execute (wrapper marshalling)', 'orcc: output_code_backup', 'orcc: output_code_no_orc',
